@@ -50,7 +50,6 @@ theorem signatures_verify_real (H : Addr.Hashes) (O : Oracles) (C : Crypto) (K :
     (hcalls : ∀ j kr, (keyTable H c.bech32 K.pubs)[j]? = some kr → CallsOk C K (skeleton t) spent i uo j kr.h160)
     (no_clash : ∀ j kr, (keyTable H c.bech32 K.pubs)[j]? = some kr →
       K.signer.ecdsa j (C.legacyDigest (skeleton t) i uo.script 1) ++ [1] ≠ kr.h160)
-    (no_cross : NoCross (keyTable H c.bech32 K.pubs))
     (nonzero : ∀ (k : Nat) (kr : KeyRec), (keyTable H c.bech32 K.pubs)[k]? = some kr →
       castToBool kr.h160 = true ∧ castToBool ((kr.pub.drop 1).take 32) = true)
     (hwit : t.wit = none) (hin : t.ins[i]? = some inp) (hsp : spent[i]? = some uo) (hms : ms i = none)
@@ -98,7 +97,7 @@ theorem signatures_verify_real (H : Addr.Hashes) (O : Oracles) (C : Crypto) (K :
       rw [hd] at ok3 ⊢
       obtain ⟨h64, hv⟩ := schnorr_good K.tagged d _ _ hdn ok3
       exact ⟨h64, _, dig_tap, by rw [hO_schnorr, hv]⟩
-  exact accept_aux H O f q c K.pubs ms (sigOf C K.signer spent) t spent i inp uo hf hash_same hash_len no_cross pub_len
+  exact accept_aux H O f q c K.pubs ms (sigOf C K.signer spent) t spent i inp uo hf hash_same hash_len pub_len
     nonzero hsigner hwit hin hsp hms hown haddr hss
 
 end GocoinV.WalletTx
